@@ -25,7 +25,7 @@ func init() {
 
 func (c10) ID() string { return "C10" }
 
-const c10Variants = 11
+const c10Variants = 12
 
 var c10Programs = []string{
 	"a && b\n", "a || b\n", "case x in a) b;; esac\n", "a >>f\n", "a >|f\n", "a <<E\nb\nE\n", "a <<-E\n\tb\nE\n", "a <>f\n", "a <&3\n", "a >&2\n", "((x))\n", "$((1))\n",
@@ -107,7 +107,7 @@ func (p c10) Gen(seed uint64, tier string, idx int) (*Case, bool) {
 	}
 	c.Reader = c10Variant(v, uint64(idx))
 	// the shape of the injected error rotates per program: plain, wrapping io.EOF, wrapping io.ErrUnexpectedEOF
-	if c.Reader.FaultKind != "zero-progress" {
+	if c.Reader.FaultKind != "zero-progress" && c.Reader.Kind != "pipe" {
 		c.Reader.ErrKind = []string{"", "wraps-eof", "timeout", "unexpected-eof", "uncomparable", ""}[pi%6]
 		if pi%7 == 3 {
 			// a well-known sentinel of the standard library, unwrapped
@@ -126,6 +126,9 @@ func (p c10) Gen(seed uint64, tier string, idx int) (*Case, bool) {
 
 func c10Variant(v int, salt uint64) gosim.ReaderPlan {
 	switch v {
+	case 11:
+		// the read end of an io.Pipe, closed under the parser after k bytes (Read then fails with io.ErrClosedPipe)
+		return gosim.ReaderPlan{Kind: "pipe", FaultAt: -2, FaultKind: "persistent", ErrKind: "sentinel-closed-pipe"}
 	case 0:
 		return gosim.ReaderPlan{Kind: "scanner", FaultAt: -2, FaultKind: "persistent"}
 	case 1:
